@@ -837,12 +837,12 @@ func (g *contGen) iterOp(mode string, fix bool) string {
 		nest = 1
 	}
 	x := r.Intn(100)
-	inside := x < 45
+	inside := x < 25
 	if nest == 3 && !inside {
 		nest = 1
 	}
-	if outer != "f" && x >= 75 { // no break in a callback
-		x = 50
+	if outer != "f" && x >= 65 { // no break in a callback
+		x = 40
 	}
 	mut := func(track bool) string {
 		if isDict {
@@ -851,7 +851,7 @@ func (g *contGen) iterOp(mode string, fix bool) string {
 		return g.arrMut(fix, track)
 	}
 	switch {
-	case x < 30 && size > 0: // reached: mutation error
+	case x < 8 && size > 0: // reached: mutation error (rare here, it ends the transaction; the directed block has them all)
 		j := r.Intn(size)
 		if r.Chance(30) {
 			j = size - 1
@@ -859,9 +859,9 @@ func (g *contGen) iterOp(mode string, fix bool) string {
 		m := mut(false)
 		g.aborted = true
 		return fmt.Sprintf("im,%s,%d,%d,%s", outer, nest, j, m)
-	case x < 45: // not reached
+	case x < 25: // not reached
 		return fmt.Sprintf("im,%s,%d,%d,%s", outer, nest, size+r.Intn(3), mut(false))
-	case x < 75:
+	case x < 65:
 		return fmt.Sprintf("im,%s,%d,a,%s", outer, nest, mut(true))
 	default:
 		return fmt.Sprintf("im,%s,%d,b%d,%s", outer, nest, r.Intn(size+2), mut(true))
